@@ -36,7 +36,7 @@ ASSUMPTIONS = [
     "zip members are extracted in archive order",
 ]
 OUTSIDE = ["concurrent copies into the same destination", "partial writes finer than one 'partial' state per file", "source trees other than the two-file tree (one top-level file, one file in a sub-directory)"]
-BOUNDS = {"quick": "2 source files (one nested), 3 source formats x relative_path on/off x workers {0,2} x {folder, imagefolder}; pre-state kind enumerated (absent | user | auto-incomplete | auto-complete) with symbolic marker/file states, symbolic crash step 0..30, symbolic visiting orders",
+BOUNDS = {"quick": "2 source files (one nested), 3 source formats (+ the 1-zip-among-3-entries boundary of the 'mostly zips' rule) x relative_path on/off x workers {0,2} x {folder, imagefolder}; pre-state kind enumerated (absent | user | auto-incomplete | auto-complete) with symbolic marker/file states, symbolic crash step 0..30, symbolic visiting orders",
           "thorough": "same space, plus a second invocation after the crash (two-step histories) checked end-to-end"}
 
 KNOWN_CLASSES = set()
@@ -298,6 +298,16 @@ def setup_source(fs, fmt, rel, which):
     elif fmt == "zip":
         fs.files[src + ".zip"] = ("zip", SRC_FILES)
         expected = {"a": A, "sub/b": B}
+    elif fmt == "zipsb":
+        # boundary of the 'mostly zips' rule: one zip among three entries (1 >= 3 // 2)
+        fs.dirs.add(src)
+        fs.files[src + "/batch_0.zip"] = ("zip", SRC_FILES)
+        fs.files[src + "/README"] = ("data", "readme")
+        fs.files[src + "/LICENSE"] = ("data", "license")
+        if which == "folder":
+            expected = {"a": A, "sub/b": B}
+        else:
+            expected = {"batch_0/a": A, "batch_0/sub/b": B}
     else:
         fs.dirs.add(src)
         fs.files[src + "/batch_0.zip"] = ("zip", (("a", A),))
@@ -419,10 +429,10 @@ def body_step(cfg, dst_exists, start, end, f1, f2, user, crash_at, o0, o1):
     if res.was_deleted != bool(dst_exists):
         return fail("was_deleted untruthful")
     if which == "folder":
-        if res.source_format != fmt:
+        if res.source_format != ("zips" if fmt == "zipsb" else fmt):
             return fail("source_format untruthful")
     else:
-        if res.was_zip != (fmt == "zip") or res.was_zip_classwise != (fmt == "zips"):
+        if res.was_zip != (fmt == "zip") or res.was_zip_classwise != (fmt in ("zips", "zipsb")):
             return fail("was_zip flags untruthful")
     return True
 
@@ -433,8 +443,8 @@ def conditions(tier, rng):
     to = 600 if q else 1800
     conds = []
     for which in ("folder", "imagefolder"):
-        for fmt in ("raw", "zip", "zips"):
-            for rel in (False, True):
+        for fmt in ("raw", "zip", "zips", "zipsb"):
+            for rel in ((False, True) if fmt != "zipsb" else (True,)):
                 for workers in ((0, 2) if fmt == "zips" else (0,)):
                     for pk, pre in PREKINDS.items():
                         # the file states of an incomplete copy are enumerated as well (9 combinations):
